@@ -620,7 +620,7 @@ SPECS['C15'] = dict(
         'with lvalue arguments), polling isFinished()/isRunning(), join. Oracle: report blocks in the TSan log, de-duplicated by the pair of top tulz frames of the two accesses; a report without a tulz frame makes '
         'the run inconclusive. Instrumented accesses are not countable: distinct = distinct (workload, repetition) runs; operations per component are listed under observed',
         samples, observed=pick(agg, 'runs', 'runsResource', 'runsPool', 'runsRouter', 'runsThread', 'lockSections', 'poolTasksRun', 'poolStarts', 'poolUpdates', 'poolStops', 'poolClears', 'poolExpiryCycles',
-                               'routerOps', 'routerCallbacks', 'threadStarts', 'threadPolls', 'maxThreads')),
+                               'routerOps', 'routerCallbacks', 'routerDeliveriesEndedByException', 'routerQueriesOfASecondRouterFromCallbacks', 'threadStarts', 'threadPolls', 'maxThreads')),
     assumptions=['only code the workloads reach; TSan decides by happens-before, so the observed order matters little, but its bounded history can miss races between accesses far apart in time',
                  'ThreadPool getters/start/stop from a second thread, setExpiryTimeout while workers exist, mute/unmute through a router handle and in-callback invalidation are not intended use and are not exercised',
                  'the interposer is never linked into this build'],
